@@ -82,20 +82,42 @@ pub(crate) fn checked_div_rounded(
             }
         }
         Ordering::Greater => {
-            // divisor coeff needs to be shifted, but instead of calculating
+            // divisor coeff needs to be shifted:
             // divident / (divisor * 10 ^ shift)
-            // we can calculate
-            // (divident / divisor) / 10 ^ shift
-            // thus avoiding i128 overflow.
             // divident_n_frac_digits > shift
             shift = divident_n_frac_digits - shift;
-            // shift < divident_n_frac_digits => shift < 18 => ten_pow(shift)
-            // is safe
-            Some(i128_div_rounded(
-                divident_coeff / divisor_coeff,
-                ten_pow(shift),
-                None,
-            ))
+            // 0 < shift <= divident_n_frac_digits <= 18
+            if let Some(shifted_divisor) =
+                checked_mul_pow_ten(divisor_coeff, shift)
+            {
+                return Some(i128_div_rounded(
+                    divident_coeff,
+                    shifted_divisor,
+                    None,
+                ));
+            }
+            // |divisor * 10 ^ shift| > i128::MAX >= |divident|, i.e. the
+            // absolute value of the quotient is less than 1. In order to
+            // round it only once, it is mapped to the quarter (1/4, 2/4 or
+            // 3/4) lying on the same side of 1/2, by comparing |divident|
+            // with |divisor| * (10 ^ shift / 2).
+            if divident_coeff == 0 {
+                return Some(0);
+            }
+            let half_shift = (ten_pow(shift) / 2) as u128;
+            let abs_divident = divident_coeff.unsigned_abs();
+            let quarters = match (abs_divident / half_shift)
+                .cmp(&divisor_coeff.unsigned_abs())
+            {
+                Ordering::Less => 1_i128,
+                Ordering::Equal if abs_divident % half_shift == 0 => 2_i128,
+                _ => 3_i128,
+            };
+            if (divident_coeff < 0) == (divisor_coeff < 0) {
+                Some(i128_div_rounded(quarters, 4, None))
+            } else {
+                Some(i128_div_rounded(-quarters, 4, None))
+            }
         }
     }
 }
